@@ -35,6 +35,15 @@ sim_claim("C06", "membership == query result at every hand-back and after every 
   "For every query-based group of the assets in force: contact in group iff CheckQueryBasedMembership is true, after every sprint (trigger and resume paths, UI edits between sprints, stale stored membership) and after every effective direct modifier; contacts that became non-active must have left their static groups.",
   "Uses the repository's own query evaluator on the final contact (its correctness is C15's subject); where the session's base and merged environments disagree on a date condition either result is accepted (counted); a modifier that changes nothing is not required to repair stale stored membership.")
 
+CLAIMED["C10"] = ("fault_enumeration",
+  "deterministic simulation with fault injection: at every wait reached in a simulated run the host forks the persisted session and enumerates one-step futures (resume type x live/restored x asset-store fault x resume limit), each under a restored seam snapshot",
+  "Seeded search reaches the session states (generated flows, histories, faults); at each reached wait the one-step future space is enumerated exhaustively: 4 resume types on a restored copy and on the live object, 7-8 asset faults between sprints (waiting flow deleted, parent flow deleted, waiting node removed, wait removed, router removed, flow type changed, definition unreadable, transient source error) x 4 resume types, the resume limit at and above the number of waits, and 4 resume types against every ended session. Rejected (engine error 101/102/103) => session JSON byte-identical, no events, and a following legitimate resume behaves exactly as on a pristine copy; impossible => failed session with failure event, no live runs, no Go error, no panic.",
+  "Exhaustive only over the one-step futures at the waits the search reaches; the reachable session states themselves are sampled. Trusts the seam snapshot/restore around forks (the main line's determinism check covers it).",
+  "DESIGN.md §5 C10")
+sim_claim("C20", "dynamic events of every sprint checked against the static Inspect() of the flow revision that sprint ran (fresh assets, seam snapshot so observation is transparent)",
+  "Every run_result_changed must be listed by key (and category) in the inspection's results, the exit by which a resumed session left its wait must be a waiting exit, every asset an event touches that the event's node holds a fixed reference to must be a listed dependency, and @globals references in templates of visited nodes must be listed. Service outcomes (Success/Failure/Skipped) are driven by injected HTTP/SMTP faults.",
+  "Variable references and query-based groups are excepted as the property says; attribution of a result to an action of its node uses the node definition (several actions saving under one name: the one explaining the category).")
+
 NOT_BUILT = {
 }
 
